@@ -154,7 +154,25 @@ CLAIMS.update({
           'not annotated). Known findings: the sign-of-zero rule of abstract neg / mul, and sum() of a one-element list.'),
 })
 
+CLAIMS.update({
+ 'C18': dict(engine='Runtime', technique='explicit TLA+ model of the process-level runtime (threads, function cache, Python boundary, scoped MPFR settings) checked with TLC over all interleavings; TLC-generated schedules replayed on real threads and recorded histories validated against the specification', text=(
+     'spec/Runtime.tla: two threads execute scripts of calls, each call seven steps (Begin, Lookup/compile, CopyIn, SetPrec, Op, Restore, '
+     'CopyOut); a call\'s value is the tuple of everything it read. TLC checks SeqEquivalent (a function of the call alone), ArgsUntouched, '
+     'NoSharedStructure, CacheByIdentity and MpfrScoped over every interleaving, and rejects five wrong designs (context in shared state, '
+     'cache keyed by name, no copy at the boundary, process-wide MPFR precision, aliased result). Conformance: each history is one '
+     'pristine process that first computes the result of every call ALONE (fork per call), then makes sequential calls over 17 functions '
+     '(mutating / returning their list argument, nested containers, MPFR functions, own context, helpers, same-named twins, transformed '
+     'copies) x 7 contexts with fresh interpreters in between, writes into every returned container, and runs two-thread phases stepped '
+     'through schedules TLC generated from Runtime.tla (RuntimeSched, -simulate) at line granularity of BytecodeInterpreter.eval, gmputils\' scoped '
+     'MPFR calls and the compiled function. Every completed call is a record judged by spec/RuntimeTrace.tla.'),
+     note='Two threads, two calls each per phase; stepping sees Python line events only (a switch inside a C call cannot be forced; thorough adds free-running '
+          'phases with a 1 us switch interval, whose failures are real but whose passes claim nothing). Known finding: functions that write to / return a captured list.'),
+})
+
 ENGINES = [
+ ('Runtime', 'spec/Runtime.tla', ['C18'], 'process-level runtime model: threads, cache, boundary copies, scoped MPFR settings'),
+ ('RuntimeSched', 'spec/RuntimeSched.tla', ['C18'], 'schedule generator (history variable over Runtime behaviours)'),
+ ('RuntimeTrace', 'spec/RuntimeTrace.tla', ['C18'], 'trace validation of recorded call histories'),
  ('AbsFormat', 'spec/AbsFormat.tla', ['C14'], 'membership in format bounds; soundness conditions of the abstract arithmetic'),
  ('FmtMachine', 'spec/FmtMachine.tla', ['C14'], 'abstract machine with run-time membership checks of inferred bounds'),
  ('Cursor', 'spec/Cursor.tla', ['C19'], 'edit-log forwarding algebra and site index discipline'),
